@@ -29,15 +29,15 @@ type S struct {
 }
 
 type SegTemplate struct {
-	Media                    string   `xml:"media,attr"`
-	Initialization           string   `xml:"initialization,attr"`
-	Timescale                *uint64  `xml:"timescale,attr"`
-	Duration                 *uint64  `xml:"duration,attr"`
-	StartNumber              *uint64  `xml:"startNumber,attr"`
-	EndNumber                *uint64  `xml:"endNumber,attr"`
-	PTO                      *uint64  `xml:"presentationTimeOffset,attr"`
-	AvailabilityTimeOffset   string   `xml:"availabilityTimeOffset,attr"`
-	AvailabilityTimeComplete string   `xml:"availabilityTimeComplete,attr"`
+	Media                    string  `xml:"media,attr"`
+	Initialization           string  `xml:"initialization,attr"`
+	Timescale                *uint64 `xml:"timescale,attr"`
+	Duration                 *uint64 `xml:"duration,attr"`
+	StartNumber              *uint64 `xml:"startNumber,attr"`
+	EndNumber                *uint64 `xml:"endNumber,attr"`
+	PTO                      *uint64 `xml:"presentationTimeOffset,attr"`
+	AvailabilityTimeOffset   string  `xml:"availabilityTimeOffset,attr"`
+	AvailabilityTimeComplete string  `xml:"availabilityTimeComplete,attr"`
 	Timeline                 *struct {
 		S []S `xml:"S"`
 	} `xml:"SegmentTimeline"`
@@ -59,19 +59,19 @@ type Rep struct {
 }
 
 type AdaptationSet struct {
-	ID            string       `xml:"id,attr"`
-	ContentType   string       `xml:"contentType,attr"`
-	MimeType      string       `xml:"mimeType,attr"`
-	Lang          string       `xml:"lang,attr"`
-	Codecs        string       `xml:"codecs,attr"`
-	SegTemplate   *SegTemplate `xml:"SegmentTemplate"`
-	Reps          []Rep        `xml:"Representation"`
-	ContentProt   []Desc       `xml:"ContentProtection"`
-	InbandEvents  []Desc       `xml:"InbandEventStream"`
-	Supplemental  []Desc       `xml:"SupplementalProperty"`
-	Essential     []Desc       `xml:"EssentialProperty"`
-	Roles         []Desc       `xml:"Role"`
-	ProducerRefs  []struct {
+	ID           string       `xml:"id,attr"`
+	ContentType  string       `xml:"contentType,attr"`
+	MimeType     string       `xml:"mimeType,attr"`
+	Lang         string       `xml:"lang,attr"`
+	Codecs       string       `xml:"codecs,attr"`
+	SegTemplate  *SegTemplate `xml:"SegmentTemplate"`
+	Reps         []Rep        `xml:"Representation"`
+	ContentProt  []Desc       `xml:"ContentProtection"`
+	InbandEvents []Desc       `xml:"InbandEventStream"`
+	Supplemental []Desc       `xml:"SupplementalProperty"`
+	Essential    []Desc       `xml:"EssentialProperty"`
+	Roles        []Desc       `xml:"Role"`
+	ProducerRefs []struct {
 		ID string `xml:"id,attr"`
 	} `xml:"ProducerReferenceTime"`
 }
@@ -90,21 +90,21 @@ type PatchLoc struct {
 }
 
 type MPD struct {
-	XMLName                   xml.Name   `xml:"MPD"`
-	ID                        string     `xml:"id,attr"`
-	Type                      string     `xml:"type,attr"`
-	PublishTime               string     `xml:"publishTime,attr"`
-	AvailabilityStartTime     string     `xml:"availabilityStartTime,attr"`
-	MediaPresentationDuration string     `xml:"mediaPresentationDuration,attr"`
-	TimeShiftBufferDepth      string     `xml:"timeShiftBufferDepth,attr"`
-	MinimumUpdatePeriod       string     `xml:"minimumUpdatePeriod,attr"`
-	SuggestedPresentationDelay string    `xml:"suggestedPresentationDelay,attr"`
-	Locations                 []string   `xml:"Location"`
-	PatchLocations            []PatchLoc `xml:"PatchLocation"`
-	BaseURLs                  []string   `xml:"BaseURL"`
-	Periods                   []Period   `xml:"Period"`
-	UTCTimings                []Desc     `xml:"UTCTiming"`
-	ServiceDescriptions       []struct {
+	XMLName                    xml.Name   `xml:"MPD"`
+	ID                         string     `xml:"id,attr"`
+	Type                       string     `xml:"type,attr"`
+	PublishTime                string     `xml:"publishTime,attr"`
+	AvailabilityStartTime      string     `xml:"availabilityStartTime,attr"`
+	MediaPresentationDuration  string     `xml:"mediaPresentationDuration,attr"`
+	TimeShiftBufferDepth       string     `xml:"timeShiftBufferDepth,attr"`
+	MinimumUpdatePeriod        string     `xml:"minimumUpdatePeriod,attr"`
+	SuggestedPresentationDelay string     `xml:"suggestedPresentationDelay,attr"`
+	Locations                  []string   `xml:"Location"`
+	PatchLocations             []PatchLoc `xml:"PatchLocation"`
+	BaseURLs                   []string   `xml:"BaseURL"`
+	Periods                    []Period   `xml:"Period"`
+	UTCTimings                 []Desc     `xml:"UTCTiming"`
+	ServiceDescriptions        []struct {
 		ID string `xml:"id,attr"`
 	} `xml:"ServiceDescription"`
 }
@@ -161,18 +161,18 @@ func DateMS(s string) (int64, error) {
 
 // DeclSeg is one media segment an MPD declares.
 type DeclSeg struct {
-	Period   int
-	PeriodID string
-	AS       int
-	RepID    string
-	Kind     string // content type
-	Time     uint64 // media time (as used in $Time$ and tfdt), timeline mode
-	Dur      uint64
-	Nr       int64 // -1 if unknown
-	HasNr    bool
-	URL      string // relative to the MPD's directory (BaseURL prefixed when present)
-	TS       uint64
-	PTO      uint64
+	Period        int
+	PeriodID      string
+	AS            int
+	RepID         string
+	Kind          string // content type
+	Time          uint64 // media time (as used in $Time$ and tfdt), timeline mode
+	Dur           uint64
+	Nr            int64 // -1 if unknown
+	HasNr         bool
+	URL           string // relative to the MPD's directory (BaseURL prefixed when present)
+	TS            uint64
+	PTO           uint64
 	PeriodStartMS int64
 }
 
